@@ -375,6 +375,9 @@ func runRealCase(t *testing.T, r *rep.Reporter, c *rep.Case, k int) {
 		m.BodySize = prng.Pick(pb, []int{40 << 10, 300 << 10, 1200 << 10, 3 << 20})
 		r.Count("real_messages_with_large_body", 1)
 	}
+	po := prng.New(r.Seed(), uint64(k), "c01-real-odd")
+	oddify(po, m)
+	sc.Hostname = oddHostname(po)
 	sc.Msgs = []*msgSpec{m}
 	lmtp := sc.Kind == "lmtp"
 	srvUTF8 := p.Chance(2, 5)
@@ -474,5 +477,8 @@ func runRealCase(t *testing.T, r *rep.Reporter, c *rep.Case, k int) {
 		}
 	}
 	shape := fmt.Sprintf("C/%s/%v/%d/%v/idn=%v/%s", sc.Kind, srvUTF8, sc.MaxTries, sc.Bounce, needsConv, strings.Join(ss.used, ";"))
+	if m.hasOdd() {
+		shape += "/odd-domain"
+	}
 	c.Done(shape, ss.nonOK > 0)
 }
